@@ -466,8 +466,8 @@ pub fn gen_c05(rng: &mut Rng) -> Value {
         w_write: 8,
         w_write_hash: 0,
         w_remove: 4,
-        w_remove_hash: 0,
-        w_remove_fully: 0,
+        w_remove_hash: 1,
+        w_remove_fully: 1,
         w_clear: 0,
         w_lookup: 3,
         w_read: 2,
